@@ -16,6 +16,10 @@ PIPE_NOTE = ('Trusted: the simulator (SimLoop keeps asyncio FIFO order; time mov
              "ndn's own network-layer decoders. Sampled, not exhaustive; abstains within 1.5 ms of a deadline tie.")
 
 ENGINES_META = [
+    {'name': 'registration', 'path': 'engines/registration.py', 'serves_properties': ['C17'],
+     'kind_free_text': 'real NfdRegister / v1 register+unregister on a simulated face against a reactive fake NFD with scripted replies'},
+    {'name': 'framing', 'path': 'engines/framing.py', 'serves_properties': ['C06'],
+     'kind_free_text': 'real TcpFace/UnixFace.run() fed by a simulator-owned StreamReader; exhaustive cut/EOF positions for short streams'},
     {'name': 'pipeline', 'path': 'engines/pipeline.py', 'serves_properties': ['C03', 'C04', 'C05', 'C06', 'C10'],
      'kind_free_text': 'real NDNApp (ndn.app and ndn.appv2) on a direct or real Tcp/Unix/Udp face under a virtual-time '
                        'event loop; scripted peer, caller tasks, validators and handlers; reference-model oracle over the history'},
@@ -60,6 +64,23 @@ CHECKS = {
                      'observable; Nack reasons up to 2^64-1, fragmented envelopes, PIT tokens of length 0-40 on several '
                      'Interests answered in scripted order; non-trivial: >=1 entity and >=1 wrapped packet; distinct = order signature'),
 }
+
+
+CHECKS['C17'] = dict(
+    engine='registration', design_ref='5 (C17)', level='exploration',
+    technique='deterministic simulation (virtual-time asyncio loop) + reactive fake forwarder with seeded reply/fault policies + protocol oracle',
+    text='Seeded search over concurrent register/unregister calls, declared routes and reconnects against a fake NFD whose '
+         'n-th reply is scripted (200/4xx/5xx with and without body, Nack, silence, garbage, delayed around the 1 s lifetime, '
+         'duplicated); oracle checks one command per call, the command-Interest format of each front-end with the independent '
+         'TLV reader, return value == status 200, one outstanding command at a time, strictly increasing timestamps, and '
+         'parse_response round trips.',
+    note='Trusted: SimLoop, the independent TLV reader/writer, the fake forwarder. Backward wall-clock steps are not generated '
+         '(the statement quantifies over calls at the same clock reading, not over clock steps).',
+    real=REAL_COMMON + ['ndn.transport.nfd_registerer.NfdRegister', 'ndn.appv2.NDNApp', 'ndn.app.NDNApp (register/unregister/route)',
+                        'ndn.app_support.nfd_mgmt (make_command, make_command_v2, parse_response)', 'DigestSha256Signer'],
+    stub=STUB_COMMON + ['the forwarder management module (engines/registration.py)'],
+    rule='seed -> 1-8 register/unregister calls (many at the same instant), routes declared before/after connecting, optional '
+         'reconnect, per-command reply policies; non-trivial: >=2 commands and >=1 fired fault; distinct = order signature of calls and commands')
 
 
 def run_check(prop, tier):
